@@ -14,6 +14,128 @@ CHECKS = {
              "for all 16 methods and every accepted setting-form class the grammar produces; counts in the evidence.",
         note="Only cheap cost parameters are hashed; settings are sampled from a per-method grammar, not enumerated.",
         design="§4 C01"),
+    "C02": dict(
+        category="exploration",
+        technique="runtime monitoring: differential execution against the released libxcrypt 4.4.33 binary and independent reference models",
+        text="Every successful tree result (at -O2 and under ASan) equals the released binary's and, where one exists, an "
+             "independent model's result on the sampled (phrase, setting) space of all 16 methods.",
+        note="Native yescrypt (flavours j, /) has no independent implementation offline - released binary only; costs above the budget are not hashed.",
+        design="§4 C02"),
+    "C03": dict(
+        category="exploration",
+        technique="runtime monitoring: metamorphic inequality oracle (phrase/salt perturbations) on an ASan+UBSan build",
+        text="No perturbation of the phrase inside the documented significant window, and no change of the canonical salt/cost, "
+             "reproduced the digest on the executed bases; byte positions 0..510 enumerated in the thorough tier.",
+        note="Structural collisions outside the perturbation family are not searched; DES-based/$2x$/$2a$ driven 7-bit.",
+        design="§4 C03"),
+    "C04": dict(
+        category="exploration",
+        technique="compiler sanitizers (gcc ASan+UBSan fatal, clang MSan with uninitialised objects, valgrind memcheck) + canary/NUL/pointer monitors on exact-size argument blocks",
+        text="No sanitizer report, canary damage, stray pointer, missing NUL or garbage-dependent result on the executed "
+             "calls: all entry points x valid/field-mutated/random settings up to 40000 bytes x phrases up to 4096 x "
+             "all 16 alignments x hostile integer arguments.",
+        note="Red-zone tools miss overflows that stay inside output/internal; only executed paths are judged.",
+        design="§4 C04"),
+    "C05": dict(
+        category="exploration",
+        technique="runtime monitoring: fail-closed shape monitor + independent must-fail oracle over byte x position sweeps and call histories",
+        text="Every observed failure left NULL/the failure token, a documented errno and exactly the token in the output "
+             "field; no request the must-fail oracle rejects produced a hash; thorough tier sweeps every byte value at "
+             "every position of one valid setting per method.",
+        note="Requests outside the must-fail oracle may succeed or fail (then only the shape is judged); ENOMEM is C15's.",
+        design="§4 C05"),
+    "C06": dict(
+        category="exploration",
+        technique="runtime monitoring: per-method result grammar + acceptance follow-ups (crypt_checksalt, crypt, crypt_gensalt prefix) on every success",
+        text="Every successful result of the workload matched its method's structural grammar, character set, length and tag and "
+             "was accepted as a setting and as a gensalt prefix of the same family; per-position digest alphabet coverage reported.",
+        note="Shape violations needing a digest value not sampled are invisible (coverage table shows what was seen).",
+        design="§4 C06"),
+    "C07": dict(
+        category="exploration",
+        technique="runtime monitoring: isolation table (fresh process per request) vs long random call histories on shared objects, ASan/MSan/shared-library builds",
+        text="Every call of every history returned what the same request returns in a fresh process on a zeroed object: all entry "
+             "points, alignments, refilled objects, crypt_gensalt->crypt, interleaved setkey/encrypt, uninitialised objects under MSan.",
+        note="State needing a specific expensive predecessor is not reached.",
+        design="§4 C07"),
+    "C08": dict(
+        category="exploration",
+        technique="ThreadSanitizer (and helgrind in the thorough tier) on a multi-threaded stress of the re-entrant API + sequential result table + positive control",
+        text="No TSan/helgrind report with a library frame and no per-thread result differing from the sequential table on the "
+             "executed runs (2..16 threads, measured overlap); the crypt_gensalt() control made TSan report.",
+        note="Only the schedules that ran and the configured RNG path are judged.",
+        design="§4 C08"),
+    "C09": dict(
+        category="exploration",
+        technique="runtime monitoring: data-object byte scan, poisoned private stack scan (-O0, -z now), realloc/munmap ledger inspection, entropy-buffer probe, primitive context checks",
+        text="After every executed call internal/reserved/initialized were zero (validation passed) or untouched (validation failed); "
+             "no pass-phrase encoding was left in the object, the dead stack frames, reallocated or unmapped memory; entropy buffers and "
+             "digest contexts were zero.",
+        note="Stack claim for -O0 only; copies shorter than the 8-byte window and registers are out of reach.",
+        design="§4 C09"),
+    "C10": dict(
+        category="exploration",
+        technique="runtime monitoring: crypt_gensalt through all three entry points, result fed to crypt_checksalt and crypt on an ASan build",
+        text="Every generated setting was safe ASCII < 192 bytes with the selected tag, identical across the entry points, not INVALID, "
+             "and (when affordable) hashed successfully with the setting as a literal prefix; nrbytes 0..64 (0..256 thorough) enumerated.",
+        note="Settings above the cost budget are checked structurally only.",
+        design="§4 C10"),
+    "C11": dict(
+        category="exploration",
+        technique="runtime monitoring: independent cost-field decoder + documented count->cost function + reference model at the decoded cost",
+        text="For every executed (prefix, count) the acceptance matched the documented range and the decoded cost equalled the documented "
+             "function; affordable costs were tied to the work crypt does via the reference models. Known finding F4 (sunmd5 wrap) reported.",
+        note="yescrypt/scrypt applied cost is judged by C02; only sampled 64-bit counts beyond the enumerated small ranges.",
+        design="§4 C11"),
+    "C12": dict(
+        category="exploration",
+        technique="runtime monitoring: exhaustive bit-flip injectivity over the consumed window + arc4random_buf interposition for the OS-entropy path",
+        text="Every single-bit flip inside the bytes the salt encodes changed the salt; size clauses held for nrbytes 0..64 (0..256 thorough); "
+             "with rbytes=NULL the OS source was asked once and its bytes alone determined the salt; repeated draws were distinct.",
+        note="Bytes a method does not encode are not judged.",
+        design="§4 C12"),
+    "C13": dict(
+        category="exploration",
+        technique="runtime monitoring: complete enumeration of the output_size grid on exact-size heap blocks under ASan",
+        text="The whole grid output_size -2..256 x prefixes x count classes x nrbytes classes was executed: no write outside the buffer, "
+             "no abort, errno ERANGE/EINVAL, failure token, leading-part and monotonicity all held.",
+        note="Exhaustive for the stated grid only.",
+        design="§4 C13"),
+    "C14": dict(
+        category="exploration",
+        technique="runtime monitoring: link-time malloc/realloc/free ledger over crypt_ra / crypt_gensalt_ra call histories (ASan build)",
+        text="On every executed history from every start class *data stayed a live block of >= *size >= 32768 bytes, grown blocks were "
+             "erased before and zero after, results pointed into the block, nothing leaked or was freed twice.",
+        note="'Erased before growing' judged only when the recorded size equals the real block size.",
+        design="§4 C14"),
+    "C15": dict(
+        category="fault_enumeration",
+        technique="fault injection at the interposed allocator/mapping layer: every single and double failure position of each corpus call",
+        text="All single and double faults of the malloc/realloc/mmap/munmap request sequence of every corpus call were injected: clean "
+             "failure, documented errno, no leak, scratch erased, next call normal.",
+        note="Faults inside libc and kernel OOM are out of scope; corpus, not all inputs.",
+        design="§4 C15"),
+    "C16": dict(
+        category="exploration",
+        technique="runtime monitoring: in-process differential execution of the digest/HMAC/KDF primitives against libgcrypt under ASan+UBSan",
+        text="Every length up to the bound x every two-way split, random multi-way splits, key lengths 0..200 and the PBKDF2 grid agreed with "
+             "libgcrypt at all buffer offsets; contexts zero after Final.",
+        note="libgcrypt is the reference; the two-way-split grid is exhaustive up to 1100 bytes in the thorough tier.",
+        design="§4 C16"),
+    "C17": dict(
+        category="exploration",
+        technique="runtime monitoring: obsolete DES API bound by dlvsym from the fresh shared library and internal DES core, both against nettle DES / a bit-level salted model",
+        text="All weight-1/63 key x block pairs and the random pairs agreed with DES, decrypt inverted encrypt, parity and junk bits were "
+             "ignored, static and re-entrant variants agreed, crypt calls did not disturb the static key; salted/iterated core matched the model.",
+        note="Sampling of the 2^56 x 2^64 space.",
+        design="§4 C17"),
+    "C18": dict(
+        category="exploration",
+        technique="runtime monitoring: exhaustive enumeration of short strings against an independent classifier built from hashes.conf",
+        text="crypt_checksalt agreed with the independent classifier on every byte string of length <= 3, on the length-4 printable "
+             "strings (all in thorough), on random longer strings and on all hashed settings; preferred method OK and equal to NULL prefix.",
+        note="Exhaustive for the enumerated spaces only; build configurations are C19's.",
+        design="§4 C18"),
 }
 
 NOT_YET = {}
